@@ -123,6 +123,9 @@ def unit_rate(model, sizes, perm, player_order=None, limit=False, generic=False)
         rB = [r[k] for k in perm]
         oa = call(mA.rate, tA, ranks=list(r))
         ob = call(mB.rate, tB, ranks=list(rB))
+        if generic:
+            from .. import teams as _T
+            _T.guard(oa, ob)
         stats["paths"] += 1
         if model not in FULL:
             # the stated exception: pi must keep mutually tied teams in their relative order
